@@ -115,3 +115,9 @@ add('C16', 'model-based configuration testing: covering sweep of operation x key
     '(or proceeds when enforcement is off); private operations refuse on public and locked keys, encryption refuses on private keys; decryption finds the addressed subkey.',
     'Trusted: refpgp signer/verifier/PKESK decryptor. Which of several qualifying components is chosen is not asserted.',
     'DESIGN.md 4/C16')
+add('C13', 'history-based property testing with an interposed random source (os.urandom tapped per operation) and reference-side recovery of session keys, prefixes, salts, IVs and ephemeral points from the outputs',
+    'Histories of 2-8 encrypt / protect / re-protect / re-import operations over reusable message and key objects (9 ciphers, passphrases with 3 S2K hashes, RSA and ECDH on five curves, '
+    'multi-recipient with gen_key()): each recovered session key has the cipher\'s key size and was drawn from the random source during that operation, likewise prefix, SKESK salt, '
+    'protection salt and IV; all values are pairwise distinct over the history (ephemeral points too), none is a constant pattern, and no session key occurs in any output.',
+    'Trusted: refpgp.enc/keys to recover the values. Quality of the OS generator is out of scope.',
+    'DESIGN.md 4/C13')
